@@ -138,6 +138,12 @@ def make_clients(rng, sizes, with_features=True):
   raws, digs = [], []
   for s in sizes:
     raw = gen.make_examples(rng, s, kinds=kinds, idx_base=base)
+    # fixed-width string columns naturally differ in width from client to client (np.array(list_of_words) picks the
+    # longest word of THAT client): narrow / widen per client without changing any value
+    for name, col in list(raw.items()):
+      if col.dtype.kind in 'SU':
+        longest = max([len(v) for v in col.ravel().tolist()] + [1])
+        raw[name] = col.astype(f'{col.dtype.kind}{longest + int(rng.randint(0, 4))}')
     base += s
     digs.append(gen.freeze(raw))
     raws.append(raw)
